@@ -161,6 +161,7 @@ Ants(ev) ==
   \cup (IF ev.rbnull = 1 /\ ev.entcalls >= 1 THEN {"AutoEntropy"} ELSE {})
   \cup (IF "ein" \in DOMAIN ev /\ ev.ein # 0 THEN {"NonzeroErrno"} ELSE {})
   \cup (IF ev.e = "gensalt_ra" THEN {"GensaltRA"} ELSE {})
+AddAnts(f, a) == [n \in AntNames |-> f[n] + (IF n \in a THEN 1 ELSE 0)]
 V(p, n) == [l |-> l, p |-> p, n |-> n]
 Chk(ok, p, n) == IF ok THEN {} ELSE {V(p, n)}
 
@@ -196,7 +197,7 @@ Step ==
         /\ div' = div \cup j.div
         /\ cnt' = [cnt EXCEPT !.calls = @ + 1, !.ok = @ + (IF Success(ev) THEN 1 ELSE 0),
                                !.failed = @ + (IF Success(ev) THEN 0 ELSE 1),
-                               !.ant = LET a == Ants(ev) IN [n \in AntNames |-> @[n] + (IF n \in a THEN 1 ELSE 0)]]
+                               !.ant = AddAnts(@, TLCEval(Ants(ev)))]
      ELSE IF ev.e = "Fault" THEN
         /\ viol' = viol \cup {V("C13", "Fault")}
         /\ UNCHANGED <<div, cnt>>
